@@ -301,7 +301,7 @@ def sequence_programs(all_pairs=False, seed=0):
         loops = [(a, b) for a, b in pairs if a[0] in skel.LOOP_KINDS and b[0] in skel.LOOP_KINDS]
         rng.shuffle(loops)
         rng.shuffle(pairs)
-        pairs = loops[:16] + pairs[:8]
+        pairs = loops[:10] + pairs[:6]
     out = {}
     for a, b2 in pairs:
         for scope in ('global', 'function'):
@@ -357,7 +357,7 @@ def plan(tier, seed, workdir, prop='C01'):
     d2 = list(skel.shape_specs(2))
     if tier == 'quick':
         rng.shuffle(d2)
-        d2 = sorted(d2[:96])      # seeded sample of the 320 depth-2 shapes; thorough takes all of them
+        d2 = sorted(d2[:64])      # seeded sample of the 320 depth-2 shapes; thorough takes all of them
     specs.extend(d2)
     if tier == 'thorough':
         d3 = list(skel.shape_specs(3))
@@ -392,7 +392,7 @@ def plan(tier, seed, workdir, prop='C01'):
         n += 1
     # condition forms other than a bare call: !c, (c), -x, !-x, c && c, c || -x, !(c && c)
     for form in ('not', 'grp', 'neg', 'notneg', 'and', 'or', 'notgrp'):
-        for spec in [s for s in skel.shape_specs(1) if s[0][1] in ('n', 'b')]:
+        for spec in [s for s in skel.shape_specs(1) if s[0][1] in ('n', 'b') and (tier == 'thorough' or s[0][0] in ('if', 'ifelifelse', 'while', 'forix'))]:
             for scope in ('global',) if tier == 'quick' else ('global', 'function'):
                 prog, narr = skel.build(spec, scope)
                 add_shape(p, workdir, f'{form}_{skel.spec_name(spec)}_{scope[0]}', _condform(prog, form), narr, maxbits, timeout, 'condform')
@@ -402,7 +402,7 @@ def plan(tier, seed, workdir, prop='C01'):
               'enumerated by the generator; per program one CrossHair condition over symbolic oracle bits / array lengths / '
               'pool indices; non-trivial = reachability twin refuted and verdict decided')
     p.bounds = [f'oracle draws <= {maxbits} (a run that needs more ends both sides with "oracle exhausted", compared too)',
-                'array lengths 0..2', ('depth 1 exhaustively + 96 seeded depth-2 shapes of 320 (alternating scope)' if tier == 'quick' else 'depth <= 2 exhaustively, both scopes')
+                'array lengths 0..2', ('depth 1 exhaustively + 64 seeded depth-2 shapes of 320 (alternating scope)' if tier == 'quick' else 'depth <= 2 exhaustively, both scopes')
                 + ('; 1600 seeded depth-3 shapes' if tier == 'thorough' else ''),
                 'value family: conditions draw from a 19-element pool of all nine value types', 'maxStatements 300 backstop (legitimate runs within the oracle bound need < 200 statements)']
     p.stubs = ['ValueArgsError message formatting', 'host functions cc/tt/aa/vv']
